@@ -130,6 +130,28 @@ def _with_branches(ctx: Ctx, mod: Mod, fn: ast.AST):
     return out
 
 
+def _skip_scope(ctx: Ctx, mod: Mod, br: ast.AST, var: str):
+    """where is `var` (the number of instructions to skip) computed?  -> (scope node, variable name, name of the is_async flag there)
+    Follows one call of a module-level helper: `skip_insns = _helper(insns, idx, is_async)`."""
+    for st in ast.walk(br):
+        if isinstance(st, ast.Assign) and isinstance(st.targets[0], ast.Name) and st.targets[0].id == var and isinstance(st.value, ast.Call) \
+                and isinstance(st.value.func, ast.Name) and st.value.func.id in mod.defs:
+            hf = mod.defs[st.value.func.id]
+            rets = [r for r in ast.walk(hf) if isinstance(r, ast.Return) and r.value is not None]
+            if len(rets) == 1 and isinstance(rets[0].value, ast.Name):
+                flag = "is_async"
+                params = [a.arg for a in hf.args.args]
+                for i, a in enumerate(st.value.args):
+                    if norm(a) == "is_async" and i < len(params):
+                        flag = params[i]
+                for k in st.value.keywords:
+                    if norm(k.value) == "is_async" and k.arg:
+                        flag = k.arg
+                return hf, rets[0].value.id, flag
+            return None
+    return br, var, "is_async"
+
+
 def opc3_prologue(ctx: Ctx) -> None:
     mod = ctx.P.mod("_lowlevel")
     fn = mod.fn("analyze_with_blocks")
@@ -163,11 +185,17 @@ def opc3_prologue(ctx: Ctx) -> None:
                 got = arg.right.value
                 detail = f"literal {got}"
             elif isinstance(arg.right, ast.Name):
-                var = arg.right.id
-                env = {"is_async": kind == "async"}
+                sc = _skip_scope(ctx, mod, br, arg.right.id)
+                if sc is None:
+                    ctx.R.undecided("OPC-3", f"{v}/{kind}: cannot follow how {arg.right.id} is computed")
+                    continue
+                scope, var, flag = sc
+                env = {flag: kind == "async"}
                 got = None
                 incs = []
-                for st in ast.walk(br):
+                br_ = br
+                br = scope
+                for st in ast.walk(scope):
                     if isinstance(st, ast.Assign) and isinstance(st.targets[0], ast.Name) and st.targets[0].id == var:
                         val = st.value
                         if isinstance(val, ast.IfExp):
@@ -175,7 +203,10 @@ def opc3_prologue(ctx: Ctx) -> None:
                             if c is None:
                                 raise AnalysisError(f"OPC-3: cannot fold {norm(st)}")
                             val = val.body if c else val.orelse
-                        got = ast.literal_eval(val)
+                        try:
+                            got = ast.literal_eval(val)
+                        except Exception:
+                            continue
                     elif isinstance(st, ast.AugAssign) and isinstance(st.target, ast.Name) and st.target.id == var and isinstance(st.op, ast.Add):
                         gs = [eval_guard(ctx, g, v, env) if pol else _neg(eval_guard(ctx, g, v, env)) for g, pol in guards_of(mod, st, br)]
                         if any(g is False for g in gs):
@@ -183,8 +214,10 @@ def opc3_prologue(ctx: Ctx) -> None:
                         if all(g is True for g in gs):
                             incs.append(ast.literal_eval(st.value))
                         # data-dependent increments are the fillers of OPC-3b
+                br = br_
                 if got is None:
-                    raise AnalysisError(f"OPC-3: no initial assignment of {var}")
+                    ctx.R.undecided("OPC-3", f"{v}/{kind}: no literal initial assignment of {var}")
+                    continue
                 got += sum(incs)
                 detail = f"{var} folds to {got} (unconditional increments {incs})"
             else:
@@ -208,6 +241,16 @@ def opc3b_fillers(ctx: Ctx) -> None:
     fn = mod.fn("analyze_with_blocks")
     reach = ctx.reach(mod)
     n_layouts = 0
+    scopes = [(fn, "skip_insns", "is_async")]
+    for st in ast.walk(fn):
+        if isinstance(st, ast.Assign) and isinstance(st.targets[0], ast.Name) and isinstance(st.value, ast.Call) and isinstance(st.value.func, ast.Name) \
+                and st.value.func.id in mod.defs and "skip" in st.targets[0].id:
+            sc = _skip_scope(ctx, mod, fn, st.targets[0].id)
+            if sc is not None and sc[0] is not fn:
+                scopes.append(sc)
+    if not any(isinstance(x, ast.AugAssign) for sc in scopes for x in ast.walk(sc[0])):
+        ctx.R.undecided("OPC-3b", "no `skip += n` adjustments found")
+        return
     for v in sorted(ctx.V.all, key=lambda s: tuple(map(int, s.split(".")))):
         IF = ctx.F["interp"][v]
         for kind in ("sync", "async"):
@@ -222,13 +265,14 @@ def opc3b_fillers(ctx: Ctx) -> None:
                     for nm in extra:
                         fillers.setdefault(nm, lay)
             for nm, lay in sorted(fillers.items()):
-                env = {"is_async": kind == "async"}
                 ok = False
-                for st in ast.walk(fn):
-                    if isinstance(st, ast.AugAssign) and isinstance(st.target, ast.Name) and st.target.id == "skip_insns":
+                for scope, var, flag in scopes:
+                  env = {flag: kind == "async"}
+                  for st in ast.walk(scope):
+                    if isinstance(st, ast.AugAssign) and isinstance(st.target, ast.Name) and st.target.id == var:
                         if v not in reach.at(st):
                             continue
-                        gs = guards_of(mod, st, fn)
+                        gs = guards_of(mod, st, scope)
                         if any((eval_guard(ctx, g, v, env) if pol else _neg(eval_guard(ctx, g, v, env))) is False for g, pol in gs):
                             continue
                         for g, pol in gs:
@@ -757,7 +801,8 @@ def opcode_test_table(ctx: Ctx) -> Dict[str, List[str]]:
                     if isinstance(x, ast.Attribute) and x.attr == "opname":
                         has = True
                 if has:
-                    key = f"{mn}.{m.qualname_of(n)}: {norm(n)}"
+                    # keyed by module and comparison text (not by function: moving code into a helper keeps the key)
+                    key = f"{mn}: {norm(n)}"
                     table.setdefault(key, set()).update(reach.live.get(id(n), frozenset()))
     return {k: sorted(v) for k, v in table.items()}
 
@@ -778,12 +823,12 @@ def opc5_version_coverage(ctx: Ctx) -> None:
             missing.append(key)
             continue
         lost = sorted(set(want) - set(cur[key]))
-        mn = key.split(".")[0]
+        mn = key.split(":")[0]
         mod = ctx.P.mod(mn)
         if lost:
             node = None
             for n in ast.walk(mod.tree):
-                if isinstance(n, ast.Compare) and f"{mn}.{mod.qualname_of(n)}: {norm(n)}" == key:
+                if isinstance(n, ast.Compare) and f"{mn}: {norm(n)}" == key:
                     node = n
             ctx.R.fail("OPC-5", mod, node, f"the opcode test `{key.split(': ', 1)[1][:80]}` was reachable under CPython {want} and is now reachable only under {cur[key]}: "
                        f"the bytecode / f_lasti convention it handles is no longer handled on {lost} (no test on the 3.12-only suite can notice)",
